@@ -2,7 +2,8 @@
   Model of torf's tracker / webseed / httpseed lists (property C16).
 
   Code modelled (shape of the code, one definition per routine):
-    torf/_utils.py  MonitoredList  (__setitem__ [coerce, assign on a copy, clear, add every item again
+    torf/_utils.py  MonitoredList  (reverse [one slice assignment of the reversed list — /repo 3d3793a],
+                                    __setitem__ [coerce, assign on a copy, clear, add every item again
                                     through the filter — /repo e62ce6d], __delitem__, insert, replace,
                                     clear and the inherited MutableSequence append/extend/+=/remove/pop)
                     URL, URLs      (coercion `str(s).replace(' ', '+')`, validation of the ORIGINAL
@@ -10,7 +11,8 @@
                                     `_get_known_urls` cross-tier filter)
                     Trackers       (tiers are URLs objects; `_tier_changed` empty-tier removal;
                                     `tier not in self._tiers` = frozenset equality; `replace` builds
-                                    `Trackers(tiers)` before it clears — /repo 41bec34)
+                                    `Trackers(tiers)` before it clears — /repo 41bec34; `reverse`
+                                    reverses `_tiers` in place — /repo f86a28a)
     torf/_torrent.py  trackers/webseeds/httpseeds getters (rebuild the list object from the
                     metainfo on every access), setters, `_trackers_changed`, `_webseeds_changed`,
                     `_httpseeds_changed` (write-back).
@@ -200,6 +202,7 @@ inductive UOp
   | replace (us : List String)
   | setItem (i : Int) (u : String)                      -- `lst[i] = u`
   | setSlice (a b st : Option Int) (us : List String)   -- `lst[a:b:st] = us`
+  | reverse                                             -- `lst.reverse()`
   deriving Repr
 
 /-- the last loop of `MonitoredList.__setitem__` (the list was cleared before):
@@ -209,6 +212,18 @@ inductive UOp
 def readd (known : List String) : List String → List String → List String
   | acc, [] => acc
   | acc, x :: xs => if x ∈ acc ∨ x ∈ known then readd known acc xs else readd known (acc ++ [x]) xs
+
+/-- `MonitoredList.__setitem__(slice(a, b, st), us)`:
+    `[self._coerce(v) for v in value]` (URLError), the slice assignment on a copy (ValueError for
+    an extended slice of another size / step 0), then clear and add every item again, callback -/
+def urlsSetSlice (known items : List String) (a b st : Option Int) (us : List String) :
+    Option (List String) × Outcome :=
+  match coerceAll isUrl us with
+  | .error e => (none, .error e)
+  | .ok cs =>
+    match sliceAssign items a b st cs with
+    | none => (none, .error .value)
+    | some items' => (some (readd known [] items'), .ok)
 
 def urlsOp (known items : List String) : UOp → Option (List String) × Outcome
   | .insert i u =>
@@ -250,15 +265,11 @@ def urlsOp (known items : List String) : UOp → Option (List String) × Outcome
       match pyIndex items.length i with
       | none => (none, .error .index)
       | some k => (some (readd known [] (items.set k c)), .ok)
-  | .setSlice a b st us =>
-    -- `[self._coerce(v) for v in value]` (URLError), the slice assignment on a copy (ValueError for
-    -- an extended slice of another size / step 0), then clear and add every item again
-    match coerceAll isUrl us with
-    | .error e => (none, .error e)
-    | .ok cs =>
-      match sliceAssign items a b st cs with
-      | none => (none, .error .value)
-      | some items' => (some (readd known [] items'), .ok)
+  | .setSlice a b st us => urlsSetSlice isUrl known items a b st us
+  | .reverse =>
+    -- `MonitoredList.reverse` (/repo 3d3793a): `self[:] = self._items[::-1]` — ONE slice assignment
+    -- through `__setitem__` above (the items are coerced again, assigned, added again), one callback
+    urlsSetSlice isUrl known items none none none items.reverse
 
 /-! ### webseeds / httpseeds -/
 
@@ -375,16 +386,24 @@ def wOfEntries (es : List Entry) : Written :=
    (es.map fun | .tier t => t.length | .raw _ => 1).sum,
    es.map fun | .tier t => t | .raw s => chars s)
 
-/-- `Trackers.__setitem__(i, v)` with an integer index -/
-def tiersSetItem (T : Tiers) (i : Int) (v : TierVal) : Option Written × Outcome :=
+/-- `Trackers.__setitem__(i, v)` with an integer index: the object afterwards (the callback is
+    called with it whenever no error is raised).  The new tier is built with `_get_known_urls` =
+    ALL current URLs (`T.flatten`, the tier that is to be replaced included). -/
+def tiersSetItemT (T : Tiers) (i : Int) (v : TierVal) : Except Err Tiers :=
   match mkURLs isUrl T.flatten v with
-  | .error e => (none, .error e)
+  | .error e => .error e
   | .ok tier =>
     if tier ≠ [] ∧ ¬ T.any (setEq tier) = true then
       match pyIndex T.length i with
-      | none => (none, .error .index)
-      | some k => (some (wOf (splice T k (k + 1) [tier])), .ok)
-    else (some (wOf T), .ok)
+      | none => .error .index
+      | some k => .ok (splice T k (k + 1) [tier])
+    else .ok T
+
+/-- `Trackers.__setitem__(i, v)` as an operation: what the callback is handed -/
+def tiersSetItem (T : Tiers) (i : Int) (v : TierVal) : Option Written × Outcome :=
+  match tiersSetItemT isUrl T i v with
+  | .error e => (none, .error e)
+  | .ok T' => (some (wOf T'), .ok)
 
 def flatVals (vs : List TierVal) : List String :=
   vs.flatMap fun | .str s => [s] | .list us => us
@@ -430,6 +449,7 @@ inductive TOp
   | replace (vs : List TierVal)
   | setItem (i : Int) (v : TierVal)            -- `torrent.trackers[i] = v`
   | setSlice (a b : Option Int) (vs : List TierVal)   -- `torrent.trackers[a:b] = vs`  (D16b)
+  | reverse                                    -- `torrent.trackers.reverse()`
   | tier (ti : Int) (op : UOp)                 -- `torrent.trackers[ti].<op>`
   deriving Repr
 
@@ -504,6 +524,11 @@ def tiersOp (T : Tiers) : TOp → Option Written × Outcome
       | .ok T' => (some (wOf T'), .ok)
   | .setItem i v => tiersSetItem isUrl T i v
   | .setSlice a b vs => tiersSetSlice isUrl T a b vs
+  | .reverse =>
+    -- `Trackers.reverse` (/repo f86a28a): `self._tiers.reverse()`, then the callback.  (Before, the
+    -- inherited `MutableSequence.reverse` swapped through `Trackers.__setitem__`, which assigned
+    -- nothing — every URL of a stored tier is known — so `reverse()` silently did nothing.)
+    (some (wOf T.reverse), .ok)
   | .tier ti op => tierOp isUrl T ti op
 
 def applyWritten (s : MI) : Option Written → MI
